@@ -36,7 +36,7 @@ for _f, (_k, _frs) in servers.FRONTS.items():
 def run_history(front, framing, cfg, seq, delivery='whole'):
     ctx, ref, real = scenario.build(cfg)
     reset.set_identity([(0, 'Vendor'), (1, 'PC'), (2, 'V2.11')])
-    srv = servers.Server(front, framing, ctx, ignore_missing_slaves=cfg.ignore)
+    srv = servers.Server(front, framing, ctx, ignore_missing_slaves=cfg.ignore, broadcast_enable=cfg.broadcast)
     conn = srv.open()
     outs = []
     if delivery == 'burst-bytes':
@@ -96,7 +96,7 @@ def compare(acc, framing, cfg, seq, delivery, fronts, whole_base):
         if what:
             i = next((j for j in range(len(seq)) if r[0][j] != base[0][j]), len(seq) - 1)
             acc.violation('C17/%s~%s/%s/%s/%s/%s' % (base_f, f, framing, what, cfg.mode, seq[i]) + ('' if delivery == 'whole' else '/' + delivery),
-                          dict(part='equiv', framing=framing, fronts=[base_f, f], cfg=[single, list(units), False, ign], seq=list(seq),
+                          dict(part='equiv', framing=framing, fronts=[base_f, f], cfg=[single, list(units), cfg.broadcast, ign], seq=list(seq),
                                **({} if delivery == 'whole' else dict(delivery=delivery))),
                           '%s vs %s: %r / %r' % (base_f, f, [x.hex() for x in base[0][i]], [x.hex() for x in r[0][i]]), framing)
     if any(len(o) for o in base[0]):
@@ -112,8 +112,8 @@ def shard_equiv(args):
     for single, units in ((True, (1,)), (False, (1, 2)), (False, (1, 255))):
         for ign in (False, True):
             cfg = scenario.Cfg(single, units, False, ign)
-            if framing == 'tls' and not single:
-                continue
+            # (TLS frames carry no unit id: every request addresses unit 0 -- filtered by the framer under the (1, 2) map,
+            # passed on to a context that does not host it under (1, 255))
             for n in range(1, (depth if units != (1, 255) else min(depth, 2)) + 1):
                 for seq in itertools.product(TOK_A, repeat=n):
                     if framing == 'tls' and 'UA' in seq:
@@ -151,6 +151,23 @@ def shard_equiv(args):
                         for fam in ([f for f in fronts if f.endswith('-tcp')], [f for f in fronts if f.endswith('-udp')]):
                             if len(fam) > 1:
                                 compare(acc, framing, cfg, seq, 'whole', fam, None)
+    # the broadcast service, on the front-ends that offer it (threaded and asyncio): unit-0 writes among ordinary requests,
+    # one request per read and all of them back to back
+    bc_fronts = [f for f in fronts if not f.startswith('tw-')]
+    if framing != 'tls' and len(bc_fronts) > 1:
+        cfg = scenario.Cfg(False, (1, 2), True, False)
+        for n in (1, 2, 3):
+            for seq in itertools.product(('U0', 'R', 'W'), repeat=n):
+                if 'U0' not in seq:
+                    continue
+                k += 1
+                if k % parts != part:
+                    continue
+                for fam in ([f for f in bc_fronts if servers.FRONTS[f][0] == 'stream'], [f for f in bc_fronts if servers.FRONTS[f][0] != 'stream']):
+                    if len(fam) > 1:
+                        compare(acc, framing, cfg, seq, 'whole', fam, None)
+                        if n >= 2:
+                            compare(acc, framing, cfg, seq, 'burst', fam, None)
     acc.inc('states', k // parts)
     acc.add('nontrivial', ('equiv', framing))
     return acc
